@@ -243,6 +243,25 @@ def withChannel (tie : Bool) (so : List SO) (s : MSeg) : MSeg :=
 def passSegs (tie penaltyZero nf : Bool) (obs : List Obs) (dim : Nat) (conns : List Conn) : List MSeg :=
   (buildSegs penaltyZero nf obs dim conns).map (withChannel tie (scanObs dim obs))
 
+/-! ### `linesort`'s merging of aligned segments of one connector -/
+
+/-- `NudgingShiftSegment::mergeWith` on the records: limits intersected, the new position is the mid point of the two
+    positions clamped into the new limits (`max` first, then `min`, as the code does), the extent is the span of the
+    sorted union of the indexes; flags and checkpoints of the surviving segment `a` stay -/
+def mergeSeg (a b : RSeg) : RSeg :=
+  let mn := max a.minLim b.minLim
+  let mx := min a.maxLim b.maxLim
+  let mid := if b.pos < a.pos then a.pos - (a.pos - b.pos) / 2 else if b.pos > a.pos then a.pos + (b.pos - a.pos) / 2 else a.pos
+  { a with minLim := mn, maxLim := mx, pos := min mx (max mn mid), lo := min a.lo b.lo, hi := max a.hi b.hi }
+
+/-- the inner loop of the merging step for one surviving segment: absorb, in list order, every segment that
+    `shouldAlignWith` the (growing) survivor; `none` as soon as one of them should not -/
+def mergeChain (o : ROpts) (a : RSeg) (rest : List RSeg) : Option RSeg :=
+  rest.foldl (fun (acc : Option RSeg) b =>
+    match acc with
+    | none => none
+    | some x => if shouldAlignWith o x b then some (mergeSeg x b) else none) (some a)
+
 /-! ### symmetries used by Props/C10Segs -/
 
 def Pt.swap (p : Pt) : Pt := ⟨p.y, p.x⟩
